@@ -24,7 +24,7 @@ ASSUMPTIONS = [
     "the counting formula is reached through generated selectors (input generation); the simulation-level clauses are the list histories, attach/detach and restart",
     "item replacement follows list semantics (the statement only fixes move-to-end for append)",
 ]
-PROBES = ["append_present_moves_to_end", "invalid_member_rejects_list", "class_inside_not_in_later_compound", "attached", "detached", "restart", "spelling_variants_agree", "functional_pseudo_in_not"]
+PROBES = ["append_present_moves_to_end", "invalid_member_rejects_list", "class_inside_not_in_later_compound", "attached", "detached", "restart", "spelling_variants_agree", "functional_pseudo_in_not", "invalid_text_on_member"]
 
 TYPES = ["a", "b", "div", "p", "span", "h1", "li"]
 IDS = ["i", "id1", "x"]
@@ -269,6 +269,11 @@ class World:
             want = self.spec.get(s.selectorText)
             if want is not None and tuple(s.specificity) != want:
                 raise Viol("specificity_stable", f"{where}:specificity-changed", f"after {where}: {s.selectorText!r} has specificity {tuple(s.specificity)}, known {want}")
+            if want is None:
+                # a member the model has no count for: the count of a fresh selector with the same text
+                c = self.canon(s.selectorText)
+                if c is not None and tuple(s.specificity) != c[1]:
+                    raise Viol("specificity_stable", f"{where}:specificity-of-member", f"after {where}: member {s.selectorText!r} reports specificity {tuple(s.specificity)}, a new selector with that text {c[1]}")
 
     def step(self, op):
         cu, sl, k = self.cu, self.sl, op["op"]
@@ -335,6 +340,31 @@ class World:
                 out = "accepted"
             if target is self.rule:
                 self.sl = sl = self.rule.selectorList
+        elif k == "member_text":
+            # the text of one member is set through the member itself
+            if not len(sl):
+                return "empty"
+            i = op["i"] % len(self.model)
+            member = list(sl)[i]
+            c = self.canon(op["text"])
+            if c is not None and c[0] in self.model and self.model[i] != c[0]:
+                return "would-duplicate"
+            kk, v = lib.call(setattr, member, "selectorText", op["text"])
+            if kk == "exc":
+                self.stats["unexpected:member_text:" + lib.ename(v)] += 1
+                return "exc"
+            if c is None:
+                self.stats["rejected_silently" if kk == "ok" else "rejected_with_exception"] += 1
+                self.stats["fault:INVALID_SELECTOR"] += 1
+                self.stats["probe:invalid_text_on_member"] += 1
+                out = "rejected"
+            else:
+                if kk != "ok":
+                    raise Viol("valid_list_accepted", f"member_text:raises:{lib.ename(v)}", f"member.selectorText = {op['text']!r} raised {v!r}")
+                self.model[i] = c[0]
+                self.spec[c[0]] = c[1]
+                self.stats["accepted"] += 1
+                out = "accepted"
         elif k == "detach":
             if self.sheet is None or self.rule is None or self.rule.parentStyleSheet is None:
                 return "n/a"
@@ -407,7 +437,13 @@ def gen_op(r, w, i):
         return None
     g = Gen(r, nots=cfg["nots"])
     bad = cfg["bad_rate"]
-    k = r.choice(["append", "append", "append", "append", "setitem", "text", "text", "attach", "detach", "restart"])
+    k = r.choice(["append", "append", "append", "append", "setitem", "text", "text", "attach", "detach", "restart", "member_text"])
+    if k == "member_text":
+        if r.random() < max(bad, 0.5):
+            t = r.choice(INVALID + ["a[b", "#i.c[", "a:not(", "b#x.y:hover >", "#a#b .c[d", "p.q::after x", "a:not(.c"])
+        else:
+            t = render(g.selector(), r, r.choice([0, 1]))
+        return {"op": k, "i": r.randrange(0, 8), "text": t}
     if k in ("append", "setitem"):
         if r.random() < bad:
             op = {"op": k, "texts": [r.choice(INVALID)]}
